@@ -61,6 +61,33 @@ func extraPhases(run *verdict.Run) {
 		n, _ := io.Copy(h, r.Body)
 		fmt.Fprintf(w, "received=%d sha=%s", n, hex.EncodeToString(h.Sum(nil)))
 	})
+	// responses whose header block (or trailer block) is larger than one HTTP/2 frame
+	mux.HandleFunc("/bighdr", func(w http.ResponseWriter, r *http.Request) {
+		q := r.URL.Query()
+		n := 0
+		fmt.Sscan(q.Get("n"), &n)
+		val := strings.Repeat("v", 900)
+		if q.Get("where") == "trailer" {
+			for i := 0; i < n; i++ {
+				w.Header().Add("Trailer", fmt.Sprintf("X-Big-%d", i))
+			}
+			w.WriteHeader(200)
+			io.WriteString(w, "body")
+			for i := 0; i < n; i++ {
+				w.Header().Set(fmt.Sprintf("X-Big-%d", i), fmt.Sprintf("%d-%s", i, val))
+			}
+			return
+		}
+		for i := 0; i < n; i++ {
+			w.Header().Set(fmt.Sprintf("X-Big-%d", i), fmt.Sprintf("%d-%s", i, val))
+		}
+		st := 200
+		fmt.Sscan(q.Get("status"), &st)
+		w.WriteHeader(st)
+		if st == 200 && r.Method != "HEAD" {
+			io.WriteString(w, "body")
+		}
+	})
 	ln, err := net.Listen("tcp", "127.0.0.1:0")
 	if err != nil {
 		run.Inconclusive("extra backend: %v", err)
@@ -193,6 +220,85 @@ func extraPhases(run *verdict.Run) {
 				run.Violation("duplex-response-altered", w, "%s upload of %d bytes to a backend that answers before reading: client got %q (err %v), want %q", mode, len(b), string(respBody[:min(len(respBody), 120)]), err, want[:60])
 			}
 		}(i)
+	}
+	wg.Wait()
+
+	// ---- 1b. header / trailer blocks larger than one frame, on responses with and without a body
+	type bh struct {
+		method, where string
+		status, n     int
+	}
+	var cases []bh
+	for _, n := range []int{5, 20, 40, 70} { // 40 x ~920 bytes and more do not fit into one 16 KiB frame
+		cases = append(cases, bh{"GET", "header", 200, n}, bh{"GET", "header", 204, n}, bh{"GET", "header", 304, n}, bh{"HEAD", "header", 200, n}, bh{"GET", "header", 301, n})
+	}
+	// trailers: net/http's client transport (which the proxy uses towards the backend) refuses a
+	// trailer section that does not fit into its 4 KiB read buffer ("suspiciously long trailer"), so
+	// larger trailer sections never reach the proxy's handler: outside the judged domain (DESIGN.md §3)
+	cases = append(cases, bh{"GET", "trailer", 200, 1}, bh{"GET", "trailer", 200, 3})
+	for _, proto := range []string{"h2", "http/1.1"} {
+		for ci, c := range cases {
+			wg.Add(1)
+			go func(proto string, ci int, c bh) {
+				defer wg.Done()
+				tc, _, e := rig.StdDial(px.Addr, &tls.Config{InsecureSkipVerify: true, NextProtos: []string{proto}}, nil, nil)
+				if e != nil {
+					return
+				}
+				defer tc.Close()
+				path := fmt.Sprintf("/bighdr?n=%d&status=%d&where=%s", c.n, c.status, c.where)
+				var hdr, trl http.Header
+				var status int
+				var err error
+				ctx, cancel := context.WithTimeout(context.Background(), 15*time.Second)
+				defer cancel()
+				if proto == "h2" {
+					cc, e := rig.NewH2(tc)
+					if e != nil {
+						return
+					}
+					req, _ := http.NewRequestWithContext(ctx, c.method, "https://"+px.Addr+path, nil)
+					resp, e := cc.RoundTrip(req)
+					if e != nil {
+						err = e
+					} else {
+						_, err = io.ReadAll(resp.Body)
+						resp.Body.Close()
+						hdr, trl, status = resp.Header, resp.Trailer, resp.StatusCode
+					}
+				} else {
+					tc.SetDeadline(time.Now().Add(15 * time.Second))
+					fmt.Fprintf(tc, "%s %s HTTP/1.1\r\nHost: front.example\r\n\r\n", c.method, path)
+					// net/http refuses trailers that do not fit into the reader's buffer: give it room
+					resp, e := http.ReadResponse(bufio.NewReaderSize(tc, 1<<20), &http.Request{Method: c.method})
+					if e != nil {
+						err = e
+					} else {
+						_, err = io.ReadAll(resp.Body)
+						resp.Body.Close()
+						hdr, trl, status = resp.Header, resp.Trailer, resp.StatusCode
+					}
+				}
+				run.Eval(1)
+				run.Add("large_header_block_responses_"+proto, 1)
+				run.Distinct(fmt.Sprintf("bighdr-%s-%d", proto, ci))
+				w := map[string]any{"protocol": proto, "case": fmt.Sprintf("%+v", c), "error": fmt.Sprint(err)}
+				if err != nil || status != c.status {
+					run.Violation("large-header-block-response-broken", w, "%s %s (backend answers %d with %d x 900-byte %ss): client got status %d, err %v", proto, c.method, c.status, c.n, c.where, status, err)
+					return
+				}
+				src := hdr
+				if c.where == "trailer" {
+					src = trl
+				}
+				for i := 0; i < c.n; i++ {
+					if v := src.Get(fmt.Sprintf("X-Big-%d", i)); !strings.HasPrefix(v, fmt.Sprintf("%d-v", i)) || len(v) < 900 {
+						run.Violation("large-header-block-value-lost", w, "%s %s: %s X-Big-%d did not arrive intact (%d bytes)", proto, c.method, c.where, i, len(v))
+						return
+					}
+				}
+			}(proto, ci, c)
+		}
 	}
 	wg.Wait()
 
